@@ -114,6 +114,7 @@ RULES = {
     'P3t': ('rules_extra', 'tag-bit constants are complementary, never-written slots carry the tag bit, tag test / pin re-check compare unmodified counts'),
     'P9g': ('rules_extra', 'into_single: clone before dropping the original, test the count after the drop'),
     'P15m': ('rules_extra', 'index arithmetic helpers keep their shape: mask = wrap-1, index = count & mask, new count = (count + by) & count mask, past / get_previous, refreshed tail = head - scan'),
+    'P3u': ('rules_extra2', 'no destructor of the crate that destroys a payload or moves a position runs on the unwind path of user code (view closure, Clone)'),
     'P13g': ('rules_extra2', 'a value of a crate type withheld from its destructor (forget / ManuallyDrop) has every owning field moved out or destroyed on the same path'),
     'P13e': ('rules_extra2', 'alloc / ToFree shapes: allocate = forgotten with_capacity(n); deallocate = from_raw_parts(p, 0, n); do_free drops num then deallocates num'),
     'P13f': ('rules_extra2', 'no buffer is sized from another buffer\'s capacity (capacities must not be inherited by replacement lists)'),
@@ -142,8 +143,8 @@ PROPS = {
     'C01': DATAPATH,
     'C02': DATAPATH,
     'C03': DATAPATH,
-    'C04': DATAPATH + ['W14'],
-    'C05': DATAPATH + ['P13c', 'P13e', 'P13g', 'W14'],
+    'C04': DATAPATH + ['W14', 'P3u'],
+    'C05': DATAPATH + ['P13c', 'P13e', 'P13g', 'P3u', 'W14'],
     # ... a send refused for good (Disconnected raised while streams exist) is a refused send the quiescent state does not explain
     'C06': DATAPATH + ['W10', 'C13map', 'P9c'],
     # ... and a futures Stream only learns of the last value / of the end when its parked task is woken: the stream
